@@ -26,7 +26,7 @@ na = [dict(property_id=pid, reason=NOT_APPLICABLE.get(pid, "check not built yet 
       for pid in ids if pid not in CHECKS]
 m = dict(
     version=1,
-    setup_cmd="cd lean && lake build",
+    setup_cmd="./setup.sh",
     hooks=dict(guard="UXARRAY_VERIF", enable="no source hooks: observation is through the public API and in-process wrapping by the harness",
                baseline_off_cmd=BASE, source_commits=HOOK_COMMITS, add_only=True),
     engines=[
